@@ -530,9 +530,19 @@ package gohbase
 //@   ensures[C14] old(s.closed) ==> s.curRegionScannerID == old(s.curRegionScannerID) && ghost("closereq") == old(ghost("closereq"))
 //@   ensures[C14] !old(s.closed) ==> s.curRegionScannerID == 18446744073709551615
 
+// a response handed back by the client is a freshly decoded message (assumed of SendRPC as seen by the scanner)
+//@ func gohbase.RPCClient.SendRPC(rpc) (msg, err)
+//@   modifies X.attempts, X.ctxdone, X.regionstate, X.callregion, F.hrpc.base.region
+//@   ensures err == nil ==> msg != nil && (typeis(rpc, "*hrpc.Scan") ==> cast(rpc, "*hrpc.Scan").region != nil)
+//@   ensures err == nil && typeis(msg, "*pb.ScanResponse") ==> resultsWF(cast(msg, "*pb.ScanResponse").Results) && forall(k, 0 <= k && k < len(cast(msg, "*pb.ScanResponse").Results), !was(allocated(cast(msg, "*pb.ScanResponse").Results[k])))
+// the request for the current position (C06): a new region scan starts at the scanner's current start row and ends at the
+// scan's stop row, on the scan's table; a continuation names the region scanner that is open and nothing else
 //@ func gohbase.(*scanner).request
-//@   trusted "builds the scan request for the current position and sends it; does not touch the scanner's own state"
+//@   requires s.rpc != nil
 //@   modifies X.attempts, X.ctxdone, X.regionstate, X.callregion
+//@   at call NewScanRange#1 assert[C06] sameslice(arg1, s.rpc.Table()) && sameslice(arg2, s.startRow) && sameslice(arg3, s.rpc.StopRow())
+//@   at call NewScanRange#2 assert[C06] sameslice(arg1, s.rpc.Table()) && sameslice(arg2, s.startRow)
+//@   at call ScannerID#1 assert[C06] arg0 == s.curRegionScannerID
 //@   ensures r2 == nil ==> r0 != nil && r1 != nil && resultsWF(r0.Results) && forall(k, 0 <= k && k < len(r0.Results), !was(allocated(r0.Results[k])))
 
 //@ func gohbase.(*scanner).shift
